@@ -490,6 +490,9 @@ def one_dataset(obs, ctx, rng, spec, pending, tmpdir):
     c.inventory = [str(n) for n in inventory]
     if sorted(c.inventory) != sorted(c.names):
         obs.cls('inventory-disagreement-reported-not-asserted')
+        if not any(r.startswith('geometry inventory') for r in obs.inconclusive):
+            obs.inconclusive.append('geometry inventory: emsarray get_all_geometry_names() %r, model %r (%s) - edits cannot be '
+                                    'classified, nothing asserted on such datasets' % (sorted(c.inventory), sorted(c.names), c.conv))
         obs.extra.setdefault('inventory_disagreements', [])
         if len(obs.extra['inventory_disagreements']) < 5:
             obs.extra['inventory_disagreements'].append({'case': spec, 'emsarray': sorted(c.inventory), 'model': sorted(c.names),
